@@ -55,8 +55,9 @@ func (vc *VC) doCall(st *State, f *Frame, instr ssa.Value, c *ssa.CallCommon, ar
 		f.inDefers = true
 	}
 	vc.curFrame = f
-	if len(st.frames) == 1 && vc.contract != nil && len(vc.contract.CallReqs) > 0 {
-		vc.checkCallReqs(st, f, c, fnv, args, pos)
+	if vc.contract != nil && len(vc.contract.CallReqs) > 0 {
+		// caller-side requirements also cover the calls made by inlined helpers on the function's behalf
+		vc.checkCallReqs(st, st.frames[0], c, fnv, args, pos)
 	}
 	// builtins
 	if b, ok := c.Value.(*ssa.Builtin); ok && !c.IsInvoke() {
@@ -117,6 +118,16 @@ func (vc *VC) doCall(st *State, f *Frame, instr ssa.Value, c *ssa.CallCommon, ar
 			vc.used["opaque (assumed pure and deterministic): "+name] = true
 			return done(vc.opaqueCall(st, callee, args, ct.ByRef))
 		}
+		interior := false
+		for _, a := range args {
+			if p, ok := a.(*Ptr); ok && !p.Nil && (len(p.Path) > 0 || p.Root == RElem) {
+				interior = true // a pointer into an object cannot be passed to a contract as a plain reference
+			}
+		}
+		if interior && ct != nil && !ct.Trusted && len(st.frames) <= vc.inlineDepth && !vc.onStack(st, callee) {
+			vc.note("call of %s with an interior pointer argument: body inlined instead of using its contract", callee.Name())
+			return vc.inline(st, f, instr, callee, cl, args, ct, deferred)
+		}
 		if ct != nil && !ct.Inline && callee != vc.fn && len(cl.Bind) == 0 {
 			if ct.Trusted {
 				vc.used["trusted-contract:"+name] = true
@@ -135,7 +146,9 @@ func (vc *VC) doCall(st *State, f *Frame, instr ssa.Value, c *ssa.CallCommon, ar
 	// external without model
 	vc.used["havoc:"+name] = true
 	vc.havocArgs(st, c, args)
-	return done(vc.havocResults(st, c, "r_"+callee.Name()))
+	res := vc.havocResults(st, c, "r_"+callee.Name())
+	vc.externalErrors(st, c, res)
+	return done(res)
 }
 
 func (vc *VC) onStack(st *State, fn *ssa.Function) bool {
@@ -335,10 +348,12 @@ func (vc *VC) builtin(st *State, f *Frame, b *ssa.Builtin, c *ssa.CallCommon, ar
 			newArr = vc.fresh("apparr", as)
 			q := fmt.Sprintf("ai%d", vc.nfresh)
 			vc.nfresh++
-			st.assume(T_(sortBool, fmt.Sprintf("(forall ((%s Int)) (! (=> (and (<= %s %s) (< %s %s)) (= (select %s %s) (select %s %s))) :pattern ((select %s %s))))",
-				q, sliceOff(s).S, q, q, base.S, newArr.S, q, oldArr.S, q, newArr.S, q)))
-			st.assume(T_(sortBool, fmt.Sprintf("(forall ((%s Int)) (! (=> (and (<= 0 %s) (< %s %s)) (= (select %s (+ %s %s)) (select %s (+ %s %s)))) :pattern ((select %s (+ %s %s)))))",
-				q, q, q, sliceLen(t).S, newArr.S, base.S, q, srcArr.S, sliceOff(t).S, q, newArr.S, base.S, q)))
+			end := Bin(sortInt, "+", base, sliceLen(t))
+			// quantified over absolute positions so that the triggers are free of arithmetic
+			st.assume(T_(sortBool, fmt.Sprintf("(forall ((%s Int)) (! (=> (and (<= %s %s) (< %s %s)) (= (select %s %s) (select %s %s))) :pattern ((select %s %s)) :pattern ((select %s %s))))",
+				q, sliceOff(s).S, q, q, base.S, newArr.S, q, oldArr.S, q, newArr.S, q, oldArr.S, q)))
+			st.assume(T_(sortBool, fmt.Sprintf("(forall ((%s Int)) (! (=> (and (<= %s %s) (< %s %s)) (= (select %s %s) (select %s (+ (- %s %s) %s)))) :pattern ((select %s %s))))",
+				q, base.S, q, q, end.S, newArr.S, q, srcArr.S, q, base.S, sliceOff(t).S, newArr.S, q)))
 		}
 		vc.setHeap(st, n, Store(vc.heap(st, n, h.Sort), r, newArr))
 		nl := Bin(sortInt, "+", sliceLen(s), sliceLen(t))
@@ -667,6 +682,27 @@ func (vc *VC) havocLocation(env *Env, st *State, m Expr, ct *Contract) {
 			vc.havocValueContents(st, env.eval(x.Args[0]))
 			return
 		}
+		if x.Fun == "fieldof" && len(x.Args) == 1 {
+			// the field itself (not what it refers to)
+			if sel, ok := x.Args[0].(*ESel); ok {
+				base := env.eval(sel.X)
+				pt, isPtr := derefType(base.T)
+				if isPtr {
+					if idx, _, ok := findFieldAnyPkg(pt, sel.Name); ok && len(idx) == 1 {
+						s := T.SortOf(pt)
+						p := &Ptr{Root: RObj, Base: base.V, Sort: s, Path: []PathStep{{Field: idx[0]}}}
+						fv := vc.fresh("mod_"+sel.Name, vc.targetSort(p))
+						if st2, ok := types.Unalias(pt).Underlying().(*types.Struct); ok {
+							vc.typeFacts(st, fv, st2.Field(idx[0]).Type())
+						}
+						vc.store(st, p, fv)
+						return
+					}
+				}
+			}
+			fail("fieldof(x.f): x must be a pointer to a struct with field f")
+			return
+		}
 		if x.Fun == "heapof" && len(x.Args) == 1 {
 			// all objects of a type
 			if id, ok := x.Args[0].(*EIdent); ok {
@@ -862,6 +898,18 @@ func (vc *VC) staticModTarget(ct *Contract, m Expr, c *ssa.CallCommon) []modTarg
 			}
 		}
 	case *ECall:
+		if x.Fun == "fieldof" && len(x.Args) == 1 {
+			if sel, ok := x.Args[0].(*ESel); ok {
+				if id, ok := sel.X.(*EIdent); ok {
+					if t := vc.staticParamType(ct, id.Name, c); t != nil {
+						if pt, isPtr := derefType(t); isPtr {
+							s := T.SortOf(pt)
+							return []modTarget{{heap: heapName("H", s), sort: s, kind: "obj"}}
+						}
+					}
+				}
+			}
+		}
 		if x.Fun == "heapof" {
 			if id, ok := x.Args[0].(*EIdent); ok {
 				env := &Env{vc: vc, st: vc.entry, pkg: vc.fn.Pkg.Pkg, nq: &vc.nq}
@@ -1087,7 +1135,13 @@ func (vc *VC) doSelect(st *State, f *Frame, x *ssa.Select) []*State {
 				var v Value
 				if i == idx {
 					v = vc.freshValue(s, et, "selrecv")
-					vc.chanInvAssume(s, fr, sc.Chan, vc.tv(s, fr, sc.Chan), v)
+					cht := vc.tv(s, fr, sc.Chan)
+					if strings.HasPrefix(cht.S, "(ctxdonech ") {
+						// a Done channel only ever delivers by being closed
+						vc.declareFun("chclosed", []*Sort{sortInt}, sortBool)
+						s.assume(App(sortBool, "chclosed", cht))
+					}
+					vc.chanInvAssume(s, fr, sc.Chan, cht, v)
 				} else {
 					v = vc.eng.st.Zero(vc.eng.st.SortOf(et))
 				}
@@ -1276,4 +1330,28 @@ func ufName(callee *ssa.Function, i int) string {
 	n := callee.String()
 	n = strings.ReplaceAll(n, vipnodeMod+"/", "")
 	return fmt.Sprintf("uf_%s_%d", smtName(n), i)
+}
+
+// externalErrors: an error returned by a dependency has a dependency-defined dynamic type, never one of vipnode's.
+func (vc *VC) externalErrors(st *State, c *ssa.CallCommon, res Value) {
+	sig := c.Signature()
+	ext := IntLit(int64(vc.eng.tagOf(types.NewPointer(types.Typ[types.Invalid]))))
+	mark := func(v Value, t types.Type) {
+		if term, ok := v.(*Term); ok && isErrorType(t) {
+			st.assume(Or(Eq(ifaceTag(term), IntLit(0)), Eq(ifaceTag(term), ext)))
+			vc.note("errors returned by dependencies never have a vipnode-defined dynamic type")
+		}
+	}
+	switch r := res.(type) {
+	case Tuple:
+		for i, v := range r {
+			if i < sig.Results().Len() {
+				mark(v, sig.Results().At(i).Type())
+			}
+		}
+	default:
+		if sig.Results().Len() == 1 {
+			mark(res, sig.Results().At(0).Type())
+		}
+	}
 }
